@@ -673,6 +673,54 @@ def discharge(o, inputs, opts, scale=None):
     return {"verdict": "unsat", "backend": backends[0] if len(set(backends)) == 1 else "+".join(sorted(set(backends))), "seconds": total}
 
 
+def _z3_to_sympy(t, cache, syms):
+    import sympy
+    k = t.get_id()
+    if k in cache:
+        return cache[k]
+    if z3.is_int_value(t):
+        r = sympy.Integer(t.as_long())
+    elif z3.is_rational_value(t):
+        r = sympy.Rational(t.numerator_as_long(), t.denominator_as_long())
+    elif z3.is_const(t) and t.decl().kind() == z3.Z3_OP_UNINTERPRETED:
+        r = syms.setdefault(t.decl().name(), sympy.Symbol("v%d" % len(syms)))
+    else:
+        kind = t.decl().kind()
+        ch = [_z3_to_sympy(c, cache, syms) for c in t.children()]
+        if kind == z3.Z3_OP_ADD:
+            r = sympy.Add(*ch)
+        elif kind == z3.Z3_OP_MUL:
+            r = sympy.Mul(*ch)
+        elif kind == z3.Z3_OP_SUB:
+            r = ch[0] - sympy.Add(*ch[1:]) if len(ch) > 1 else -ch[0]
+        elif kind == z3.Z3_OP_UMINUS:
+            r = -ch[0]
+        elif kind == z3.Z3_OP_TO_REAL:
+            r = ch[0]
+        elif kind == z3.Z3_OP_DIV and ch[1].is_number and ch[1] != 0:
+            r = ch[0] / ch[1]
+        elif kind == z3.Z3_OP_POWER and ch[1].is_Integer and ch[1] >= 0:
+            r = ch[0] ** ch[1]
+        else:
+            raise ValueError("not a polynomial term")
+    cache[k] = r
+    return r
+
+
+def _sympy_identity(goal):
+    """back end 'sympy-ring': a goal  lhs == rhs  between polynomial terms (rational coefficients) is discharged when
+    expand(lhs - rhs) is the zero polynomial (true for all values of the variables, hence under any hypotheses)."""
+    try:
+        import sympy
+        if not (z3.is_eq(goal) and z3.is_arith(goal.arg(0))):
+            return False
+        cache, syms = {}, {}
+        d = _z3_to_sympy(goal.arg(0), cache, syms) - _z3_to_sympy(goal.arg(1), cache, syms)
+        return sympy.expand(d) == 0
+    except Exception:
+        return False
+
+
 def _race(jobs, hard_s):
     """Run the solver jobs concurrently in forked children; first sat/unsat wins, the rest are killed."""
     import pickle
@@ -744,6 +792,8 @@ def _discharge1(o, inputs, opts, scale=None):
     if z3.is_true(goal_s):
         return {"verdict": "unsat", "backend": "simplify", "seconds": 0.0}
     t0 = time.time()
+    if opts.get("sympy_ring", True) and _forked(lambda: ("unsat" if _sympy_identity(o.goal) else "unknown", None, ""), 20)[0] == "unsat":
+        return {"verdict": "unsat", "backend": "sympy-ring", "seconds": time.time() - t0}
 
     def with_model(solve):
         def job():
